@@ -232,9 +232,22 @@ let rec perms = function
   | l -> L.concat_map (fun x -> L.map (fun p -> x :: p) (perms (L.filter (fun y -> y != x) l))) l
 
 (* the results the model allows: one per order in which Go's map iteration may deliver the keys *)
-let model_results (c : case) : result list =
-  let orders = if L.length c.query <= 4 then perms c.query else [c.query; L.rev c.query] in
-  L.sort_uniq compare (L.map (run_model c) orders)
+let model_orders (c : case) =
+  (* url.Values is a map from key to its values in order of appearance: the order between KEYS is Go's map order *)
+  let keys = L.fold_left (fun acc kv -> if L.mem (fst kv) acc then acc else acc @ [fst kv]) [] c.query in
+  let of_keys ks = L.concat_map (fun k -> L.filter (fun kv -> fst kv = k) c.query) ks in
+  let orders =
+    if L.length keys <= 6 then L.map of_keys (perms keys)
+    else begin
+      (* too many keys to enumerate: the given order, its reverse and 300 shuffles from a fixed generator *)
+      let st = ref 88172645463325252 in
+      let next n = st := !st lxor (!st lsl 13); st := !st lxor (!st lsr 7); st := !st lxor (!st lsl 17); (!st land max_int) mod n in
+      let shuffle l = let a = Array.of_list l in
+        for i = Array.length a - 1 downto 1 do let j = next (i + 1) in let t = a.(i) in a.(i) <- a.(j); a.(j) <- t done; Array.to_list a in
+      of_keys keys :: of_keys (L.rev keys) :: L.init 300 (fun _ -> of_keys (shuffle keys))
+    end in
+  orders
+let model_results (c : case) : result list = L.sort_uniq compare (L.map (run_model c) (model_orders c))
 
 let parse_obs (obs : string) : result =
   if obs = "panic" then RPanic
@@ -243,9 +256,9 @@ let parse_obs (obs : string) : result =
   else failwith ("observation " ^ obs)
 
 let tie (c : case) (got : result) : string option =
-  let rs = model_results c in
-  if L.mem got rs then None
-  else Some (Printf.sprintf "model of serveHTTP/RecvMsg predicts %s, implementation gave %s"
+  (* lazily: most requests give the same message in every order, so the first order already agrees *)
+  if L.exists (fun o -> run_model c o = got) (model_orders c) then None
+  else let rs = model_results c in Some (Printf.sprintf "model of serveHTTP/RecvMsg predicts %s, implementation gave %s"
                (String.concat " | " (L.map string_of_result rs)) (string_of_result got))
 
 let is_prefix p q =
